@@ -129,7 +129,8 @@ def bound_universe(small):
     if small:
         vs = [(0, 0, p, pre) for p in (0, 1) for pre in ((), (0,), (1,))]
     else:
-        vs = [(M, 0, p, pre) for M in (0, 1) for p in (0, 1, 2) for pre in ((), (0,), (1,))]
+        # includes `v` together with its immediate successor `v.0` (prerelease lists (0,) and (0, 0))
+        vs = [(M, 0, p, pre) for M in (0, 1) for p in (0, 1, 2) for pre in ((), (0,), (0, 0), (1,))]
     return vs
 
 
